@@ -38,3 +38,24 @@ for d in sorted(glob.glob(os.path.join(here, "seeded", "*"))):
     for cid, cr in r.get("checks", {}).items():
         caught = "`./check %s`" % cid if cr.get("violation") else "**missed**"
         print("| %s | %s | %s | %s | `%s` |" % (os.path.basename(d), m.get("property"), (m.get("needs_to_manifest") or m.get("summary") or "").replace("|", "/")[:160], caught, cr.get("replay_case") or "-"))
+
+print()
+print("### 10.4 Behaviour-preserving refactorings (independent sub-agents) run through the checks of the touched files: no alarm\n")
+print("| refactoring | files rewritten | checks run on the patched tree | alarms |")
+print("|---|---|---|---|")
+import re as _re
+for d in sorted(glob.glob(os.path.join(here, "seeded_refactor", "*"))):
+    rp = os.path.join(d, "result.json")
+    if not os.path.exists(rp):
+        continue
+    r = json.load(open(rp))
+    files = sorted(set(_re.findall(r"^diff --git a/(\S+)", open(os.path.join(d, "patch.diff")).read(), flags=_re.M)))
+    runs = []
+    alarms = 0
+    for cid, lines in r.get("checks", {}).items():
+        last = lines[-1] if lines else ""
+        m = _re.search(r"cases=(\d+).*exit=(\d+)", last)
+        runs.append("%s (%s cases)" % (cid, m.group(1)) if m else cid)
+        if not m or m.group(2) != "0" or any("VIOLATION" in x for x in lines):
+            alarms += 1
+    print("| %s | %s | %s | %s |" % (os.path.basename(d), ", ".join(files), ", ".join(runs), alarms or "none"))
